@@ -399,12 +399,13 @@ fn run_path(ctx: &Ctx, base: &(&'static str, Vec<Cmd>), path: &[usize]) -> bool 
             v["then"] = json!("backup to a file, open it as a new database, observe");
             v
         };
-        let file = RELOAD.with(|s| s.path("reload.agdb"));
+        let file = reload_file();
         let _ = std::fs::remove_file(&file);
         let reloaded = catch(|| -> Result<Box<dyn DbLike>, agdb::DbError> {
             db.backup_to(&file)?;
             Variant::Memory.open(&file)
         });
+        let _ = std::fs::remove_file(&file);
         match reloaded {
             Ok(Ok(db2)) => {
                 ctx.reloads.fetch_add(1, Ordering::Relaxed);
@@ -433,8 +434,10 @@ fn run_path(ctx: &Ctx, base: &(&'static str, Vec<Cmd>), path: &[usize]) -> bool 
     true
 }
 
-thread_local! {
-    static RELOAD: engine::Scratch = engine::Scratch::new("c08reload");
+/// one scratch file per process (the worker processes are single-threaded); removed after every use
+fn reload_file() -> String {
+    let base = if std::path::Path::new("/dev/shm").is_dir() { std::path::PathBuf::from("/dev/shm") } else { std::env::temp_dir() };
+    base.join(format!("verif-c08reload-{}.agdb", std::process::id())).to_string_lossy().to_string()
 }
 
 /// whether a path is extendable, judged silently (its own work item reports its violations)
